@@ -8,4 +8,5 @@ def main : IO UInt32 :=
     | "c04cond" => C04.checkCond params lines
     | "c04" => C04.checkEng params lines
     | "c04host" => C04.checkEng params lines
+    | "c04again" => C04.checkEng params lines
     | _ => { bad := [s!"unknown family {family}"] })
